@@ -75,11 +75,16 @@ def explore(check, obs, configs, limit=None, invariants=('NoFault', 'NoForeignSi
     with ThreadPoolExecutor(3) as ex:          # the TLC runs of the configurations overlap
         generated = list(ex.map(gen, configs))
     for label, consts, ws in generated:
-        runs += [(p, t, consts['NRoots']) for p, t in replay(check, ws, consts, limit=limit)]
+        batch = [(p, t, consts['NRoots']) for p, t in replay(check, ws, consts, limit=limit)]
+        if obs is not None:
+            judge(check, obs, batch)        # verdict per configuration; the batch is dropped (memory of the thorough tier)
+        else:
+            runs += batch
     if random:
-        runs += random_runs(check)
-    if obs is not None:
-        judge(check, obs, runs)
+        if obs is not None:
+            judge(check, obs, random_runs(check))
+        else:
+            runs += random_runs(check)
     return runs
 
 
